@@ -77,6 +77,12 @@ func (p c18) counts(c *run.Ctx) (jitter int, dirReps int) {
 	}
 	return 420, 1
 }
+func (p c18) heartbeatCases(c *run.Ctx) int {
+	if c.Tier == "thorough" {
+		return 48
+	}
+	return 4
+}
 func (p c18) NumCases(c *run.Ctx) int {
 	j, d := p.counts(c)
 	return j + len(c18Pairs())*d
@@ -109,6 +115,14 @@ func (p c18) Gen(c *run.Ctx, idx int) (json.RawMessage, error) {
 		cs.Subs = append(cs.Subs, subSpec{ID: fmt.Sprintf("s%d", si), Op: *op, Marker: marker})
 	}
 	cs.Upstream = pick(r, c18Upstreams)
+	if idx < nj && idx%(nj/p.heartbeatCases(c)) == 3 { // spread over the batches: each takes > 4 s
+		// keep-alive overlap: events stream on two subscriptions for longer than the 4 s keep-alive
+		// period while every frame header on the client connection is followed by a pause
+		cs.Mode, cs.Upstream = "heartbeat", "stream-long"
+		cs.Cfg.WriteGapUs = 3000 + r.Intn(12000)
+		cs.History = []c18Action{{Kind: "init"}, {Kind: "start", Sub: 0}, {Kind: "start", Sub: 1}, {Kind: "wait-ka", Sub: 1}, {Kind: pick(r, []string{"stop", "terminate", "tcpclose"}), Sub: 0}}
+		return mustJSON(cs), nil
+	}
 	if idx >= nj {
 		pr := c18Pairs()[(idx-nj)%len(c18Pairs())]
 		cs.Mode, cs.Wait, cs.Until = "directed", pr[0], pr[1]
@@ -206,6 +220,10 @@ func (p c18) Exec(c *run.Ctx, idx int, raw json.RawMessage) []run.Result {
 				s = append(s, fake.SubEvent{Kind: "data"}, fake.SubEvent{Kind: "sleep", SleepUs: 200}, fake.SubEvent{Kind: "close"})
 			case "close-after-upgrade":
 				s = append(s, fake.SubEvent{Kind: "close"})
+			case "stream-long":
+				for i := 0; i < 6000; i++ {
+					s = append(s, fake.SubEvent{Kind: "data"}, fake.SubEvent{Kind: "sleep", SleepUs: 1000})
+				}
 			default:
 				for i := 0; i < 400; i++ {
 					s = append(s, fake.SubEvent{Kind: "data"}, fake.SubEvent{Kind: "sleep", SleepUs: 150})
@@ -214,7 +232,7 @@ func (p c18) Exec(c *run.Ctx, idx int, raw json.RawMessage) []run.Result {
 			return s
 		}
 	}
-	opts := sched.Options{Seed: sp.Jitter, Jitter: true, Record: true, MaxEvents: 20000}
+	opts := sched.Options{Seed: sp.Jitter, Jitter: sp.Mode != "heartbeat", Record: true, MaxEvents: 20000}
 	if sp.Mode == "directed" {
 		opts.Constraints = []sched.Constraint{{Wait: sp.Wait, Until: sp.Until}}
 		opts.Timeout = 25 * time.Millisecond
@@ -276,6 +294,27 @@ func (p c18) Exec(c *run.Ctx, idx int, raw json.RawMessage) []run.Result {
 			cl.Send(map[string]any{"id": "iq", "type": "start", "payload": map[string]any{"query": "subscription { nopeField }"}})
 		case "wait":
 			time.Sleep(time.Duration(a.SleepUs) * time.Microsecond)
+		case "wait-ka":
+			// until a.Sub keep-alive frames were seen (one per 4 s after connection_init)
+			kaDeadline := time.Now().Add(7 * time.Second)
+			for {
+				ka, data := 0, 0
+				for _, f := range cl.Frames() {
+					switch f.Type {
+					case "ka":
+						ka++
+					case "data":
+						data++
+					}
+				}
+				res.Counters["keepalives_seen"], res.Counters["frames_during_keepalive_window"] = ka, data
+				if closed, _ := cl.Closed(); ka >= a.Sub || closed || time.Now().After(kaDeadline) {
+					break
+				}
+				time.Sleep(20 * time.Millisecond)
+			}
+			// a little longer: the frame the tick may have landed in has to arrive
+			time.Sleep(60 * time.Millisecond)
 		}
 		time.Sleep(time.Duration(50+sp.Jitter%200) * time.Microsecond)
 	}
@@ -374,8 +413,13 @@ func (p c18) Exec(c *run.Ctx, idx int, raw json.RawMessage) []run.Result {
 	res.Tags = []string{"upstream:" + sp.Upstream, "mode:" + sp.Mode}
 	res.Counters["upstream:"+sp.Upstream] = 1
 	res.Counters["mode:"+sp.Mode] = 1
+	if len(viol) == 0 && sp.Mode == "heartbeat" && res.Counters["keepalives_seen"] < 1 {
+		res.Verdict, res.Symptom = run.Inconclusive, "keep-alive-tick-not-observed"
+		res.Message = fmt.Sprintf("only %d keep-alive frame(s) seen within the window; the overlap was not exercised", res.Counters["keepalives_seen"])
+		return []run.Result{res}
+	}
 	if len(viol) == 0 {
-		if res.NonTrivial && idx%11 == 0 {
+		if res.NonTrivial && (idx%11 == 0 || sp.Mode == "heartbeat") {
 			res.Sample = map[string]any{"history": hist, "upstream": sp.Upstream, "mode": sp.Mode, "constraint": sp.Wait + " until " + sp.Until, "hook_events": len(evs)}
 		}
 		return []run.Result{res}
